@@ -17,7 +17,7 @@ pub fn plan() -> Plan {
         meta: Meta {
             property: "C10",
             level: "exploration",
-            rule: "three monitors. (A) unit level through the public filter API: random bloom configs (bit counts not multiples of 64, 1..6 hashers, zero elements/bits/hashers), random key sets of random lengths: every added key must not be NotContains in memory, after to_raw/from_raw (answers equal for every probed key, added or not), and when the buffer is off-loaded and probed byte-wise through a BloomDataProvider over the serialized bytes (answers must EQUAL the in-memory answers for every probed key); checked_add_assign yields a superset or refuses, also against a filter that differs in exactly one configuration dimension (same bit count / other hasher count, other bit count); RangeFilter/CombinedFilter likewise. (B) HierarchicalFilters driven with a harness-defined child through random push/pop/remove/re-push/offload_buffer(level) sequences for group sizes 2..9: every live child must be yielded by iter_possible_childs(key) (both directions) for every key it holds and check_filter(key) != NotContains. (B) also mixes children written under another bloom configuration. (C) storage level: model histories with close/restore/delete-in-closed/offload at each level/restart over group sizes 2..9 and random keys, a third of them re-opening the directory under another bloom configuration (2 <-> 3 hashers at equal bit count, bloom off) at every restart; after each step for every stored key: check_filters != Some(false), BloomProvider::check_filter != NotContains, get_filter() contains it, read != NotFound. Non-trivial = a case with >=2 filters merged or an off-loaded probe; distinct = hash of the case.",
+            rule: "three monitors. (A) unit level through the public filter API: random bloom configs (bit counts not multiples of 64, 1..6 hashers, zero elements/bits/hashers), random key sets of random lengths: every added key must not be NotContains in memory, after to_raw/from_raw (answers equal for every probed key, added or not), and when the buffer is off-loaded and probed byte-wise through a BloomDataProvider over the serialized bytes (answers must EQUAL the in-memory answers for every probed key); checked_add_assign yields a superset or refuses, also against a filter that differs in exactly one configuration dimension (same bit count / other hasher count, other bit count); RangeFilter/CombinedFilter likewise; (A') 4 threads released together add their keys through &self to one shared RangeFilter / Bloom / CombinedFilter (150 short rounds per case, all threads moving the same bound): after the join no added key may be absent. (B) HierarchicalFilters driven with a harness-defined child through random push/pop/remove/re-push/offload_buffer(level) sequences for group sizes 2..9: every live child must be yielded by iter_possible_childs(key) (both directions) for every key it holds and check_filter(key) != NotContains. (B) also mixes children written under another bloom configuration. (C) storage level: model histories with close/restore/delete-in-closed/offload at each level/restart over group sizes 2..9 and random keys, a third of them re-opening the directory under another bloom configuration (2 <-> 3 hashers at equal bit count, bloom off) at every restart; after each step for every stored key: check_filters != Some(false), BloomProvider::check_filter != NotContains, get_filter() contains it, read != NotFound. Non-trivial = a case with >=2 filters merged or an off-loaded probe; distinct = hash of the case.",
             assumptions: vec!["verdict holds for the cases generated for this seed", "Miri run of monitor (A) is part of the thorough tier (tools/miri_c10.sh)"],
         },
         shards: 16,
@@ -242,6 +242,69 @@ async fn unit_case(rng: &mut Rng, sh: &mut Shard) -> Result<bool, (String, Strin
         }
     }
     Ok(accepted || !added.is_empty())
+}
+
+/// Monitor (A'), concurrent adds: the filters are `Sync` and are filled through `&self` (atomics in the bloom buffer, an
+/// RwLock in the range filter; a layer above pearl adds to group filters from every writer). 4 threads are released
+/// together and each adds its keys to ONE shared RangeFilter / Bloom / CombinedFilter; after the join no added key may
+/// be reported absent. Rounds are short and many: the window is the first keys of a filter (both bounds still moving).
+fn concurrent_adds_case(rng: &mut Rng) -> Result<u64, (String, String)> {
+    use std::sync::atomic::{AtomicUsize, Ordering};
+    const T: usize = 4;
+    let cfg = random_bloom_cfg(rng);
+    let rounds = 150;
+    let mut checked = 0u64;
+    for round in 0..rounds {
+        let range: RangeFilter<ArrayKey<8>> = RangeFilter::new();
+        let bloom = Bloom::new(cfg.clone());
+        let combined: CombinedFilter<ArrayKey<8>> = CombinedFilter::new(Some(Bloom::new(cfg.clone())), RangeFilter::new());
+        // keys per thread: all threads move the same bound in the same round (descending or ascending ladders)
+        let per = 1 + (round % 3);
+        let base = rng.next() >> 8;
+        let keys: Vec<Vec<ArrayKey<8>>> = (0..T)
+            .map(|t| {
+                (0..per)
+                    .map(|i| {
+                        let step = (t as u64 + 1) * 1000 + i as u64 * 7;
+                        let v = if round % 2 == 0 { base.wrapping_sub(step) } else { base.wrapping_add(step) };
+                        ArrayKey::<8>::from(v.to_be_bytes().to_vec())
+                    })
+                    .collect()
+            })
+            .collect();
+        let ready = AtomicUsize::new(0);
+        std::thread::scope(|sc| {
+            for t in 0..T {
+                let (range, bloom, combined, keys, ready) = (&range, &bloom, &combined, &keys[t], &ready);
+                sc.spawn(move || {
+                    ready.fetch_add(1, Ordering::SeqCst);
+                    while ready.load(Ordering::SeqCst) < T {
+                        std::hint::spin_loop();
+                    }
+                    for k in keys.iter() {
+                        range.add(k);
+                        let _ = bloom.add(k);
+                        FilterTrait::add(combined, k);
+                    }
+                });
+            }
+        });
+        for (t, ks) in keys.iter().enumerate() {
+            for k in ks.iter() {
+                checked += 1;
+                if !range.contains(k) {
+                    return Err(("range/concurrent-add-false-negative".into(), format!("round {}: key {:?} was added by thread {} (add returned) concurrently with {} other threads, the range filter says it is absent", round, k, t, T - 1)));
+                }
+                if bloom.contains_in_memory(k) == Some(FilterResult::NotContains) {
+                    return Err(("bloom/concurrent-add-false-negative".into(), format!("round {}: key {:?} added by thread {} is absent from the bloom filter (cfg {:?})", round, k, t, cfg)));
+                }
+                if combined.contains_fast(k) == FilterResult::NotContains {
+                    return Err(("combined/concurrent-add-false-negative".into(), format!("round {}: key {:?} added by thread {} is absent from the combined filter", round, k, t)));
+                }
+            }
+        }
+    }
+    Ok(checked)
 }
 
 /// child of the hierarchical container in monitor (B)
@@ -492,6 +555,24 @@ pub fn shard(ctx: &Ctx) -> Shard {
             }
             Ok(Err((sig, detail))) => sh.violation(&ctx.known, "C10", ctx.seed, &format!("C10/{}", sig), &detail, json!({"check": "c10-unit", "case_seed": case_seed})),
             Err(p) => sh.violation(&ctx.known, "C10", ctx.seed, "C10/unit/panic", &p, json!({"check": "c10-unit", "case_seed": case_seed})),
+        }
+    }
+    // (A') concurrent adds through &self: one case per shard and per 400 unit cases
+    for c in 0..(1 + n / 400).min(20) {
+        let case_seed = rng.next();
+        let mut crng = Rng::new(case_seed);
+        sh.evaluations += 1;
+        match std::panic::catch_unwind(std::panic::AssertUnwindSafe(|| concurrent_adds_case(&mut crng))) {
+            Ok(Ok(k)) => {
+                sh.add("concurrent_add_keys_checked", k);
+                sh.add("concurrent_add_cases", 1);
+                sh.nontrivial.insert(case_seed ^ c);
+            }
+            Ok(Err((sig, detail))) => sh.violation(&ctx.known, "C10", ctx.seed, &format!("C10/{}", sig), &detail, json!({"check": "c10-concurrent-adds", "case_seed": case_seed})),
+            Err(_) => {
+                let p = crate::runner::take_panics();
+                sh.violation(&ctx.known, "C10", ctx.seed, "C10/concurrent-adds/panic", &format!("{:?}", p.last()), json!({"check": "c10-concurrent-adds", "case_seed": case_seed}));
+            }
         }
     }
     sh.add("unit_cases", n);
